@@ -31,44 +31,6 @@ Proof. destruct a, b; simpl; intro H; try discriminate; auto; apply Nat.eqb_eq i
 (* ------------------------------------------------------------------------------------------ *)
 (* 1. the define decision table                                                                 *)
 
-(* F1: existing non-configurable accessor, descriptor with writable but no value; the configurable /
-   enumerable checks (which both sides perform alike) pass *)
-Definition in_F1 (ex : option iprop) (d : desc) : bool :=
-  match ex with
-  | Some (IProp p) =>
-      vp_accessor p && negb (vp_configurable p) && negb (isSome (d_value d)) && isSome (d_writable d)
-      && negb (is_true (d_conf d)) && negb (differs (d_enum d) (vp_enumerable p))
-  | _ => false
-  end.
-
-(* N2: existing non-configurable data property, accessor descriptor whose get/set are all undefined *)
-Definition in_N2 (ex : option iprop) (d : desc) : bool :=
-  match ex with
-  | Some (IProp p) =>
-      negb (vp_accessor p) && negb (vp_configurable p) && is_acc_desc d
-      && negb (isSome (fn_of (d_get d))) && negb (isSome (fn_of (d_set d)))
-      && negb (is_true (d_conf d)) && negb (differs (d_enum d) (vp_enumerable p))
-  | _ => false
-  end.
-
-(* N1: a writable data property is turned into an accessor: writable stays set *)
-Definition in_N1 (fx : fixes) (ext : bool) (ex : option iprop) (d : desc) : bool :=
-  is_acc_desc d && isSome (GojaDefine fx ext ex d) &&
-  match ex with
-  | Some (IBare _) => true
-  | Some (IProp p) => negb (vp_accessor p) && vp_writable p
-  | None => false
-  end.
-
-(* N3: an accessor is turned into a data property by a descriptor with writable but no value: the
-   getter/setter stay installed *)
-Definition in_N3 (fx : fixes) (ext : bool) (ex : option iprop) (d : desc) : bool :=
-  negb (isSome (d_value d)) && isSome (d_writable d) && isSome (GojaDefine fx ext ex d) &&
-  match ex with
-  | Some (IProp p) => vp_accessor p && (isSome (vp_getter p) || isSome (vp_setter p))
-  | _ => false
-  end.
-
 Ltac split_desc d Hwf :=
   destruct d as [dv dw dg ds de dc];
   destruct dv as [?v|]; destruct dw as [[|]|]; destruct dg as [[?g|]|]; destruct ds as [[?s|]|];
@@ -86,11 +48,11 @@ Ltac eqb_cases :=
          | |- context [Nat.eqb ?a ?b] => destruct (Nat.eqb a b) eqn:?; norm
          end.
 
-(* the current tree (F1 and N2 repaired): the table IS the specification's, for every existing property
-   satisfying the representation invariant and every partial descriptor *)
+(* goja's _defineOwnProperty IS ValidateAndApplyPropertyDescriptor: for every existing property (bare value,
+   data, accessor) satisfying the representation invariant and every partial descriptor ... *)
 Lemma define_eq_spec : forall ext ex d,
   desc_wf d = true -> oiprop_wf ex = true ->
-  option_map absP (GojaDefine fx_cur ext ex d) = ValidateAndApply ext (option_map absP ex) d.
+  option_map absP (GojaDefine ext ex d) = ValidateAndApply ext (option_map absP ex) d.
 Proof.
   intros ext ex d Hwf Hex.
   split_desc d Hwf; split_ex ex Hex;
@@ -98,86 +60,22 @@ Proof.
     norm; eqb_cases; reflexivity.
 Qed.
 
-(* the two regions in which the tree before commits 7dd46dd and 8a03683 differed, kept as the exact
-   characterisation of what those repairs changed (a regression shows up as corpus cases known_F1/N2) *)
-Lemma define_prefix_tree_differs_exactly : forall ext ex d,
-  desc_wf d = true -> oiprop_wf ex = true ->
-  (in_F1 ex d || in_N2 ex d = true <->
-   option_map absP (GojaDefine fx_none ext ex d) <> option_map absP (GojaDefine fx_cur ext ex d)).
+(* ... and it keeps the representation invariant, unconditionally *)
+Lemma define_wf : forall ext ex d,
+  desc_wf d = true -> oiprop_wf ex = true -> oiprop_wf (GojaDefine ext ex d) = true.
 Proof.
   intros ext ex d Hwf Hex.
   split_desc d Hwf; split_ex ex Hex;
     destruct de as [[|]|]; destruct dc as [[|]|]; destruct ext; clear;
-    norm; eqb_cases; split; intro H; try discriminate H; try reflexivity;
-    try (exfalso; apply H; reflexivity); try (intro Q; discriminate Q).
+    norm; eqb_cases; reflexivity.
 Qed.
 
-(* with the four repairs of _defineOwnProperty switched on the table is the specification's, and the
-   representation invariant is kept *)
-Lemma define_eq_spec_fixed : forall ext ex d,
-  desc_wf d = true -> oiprop_wf ex = true ->
-  option_map absP (GojaDefine fx_all ext ex d) = ValidateAndApply ext (option_map absP ex) d
-  /\ oiprop_wf (GojaDefine fx_all ext ex d) = true.
-Proof.
-  intros ext ex d Hwf Hex.
-  split_desc d Hwf; split_ex ex Hex;
-    destruct de as [[|]|]; destruct dc as [[|]|]; destruct ext; clear;
-    norm; eqb_cases; split; reflexivity.
-Qed.
-
-Ltac eqb_cases_in H :=
-  repeat match type of H with
-         | context [val_eqb ?a ?b] => destruct (val_eqb a b) eqn:?; cbv -[val_eqb Nat.eqb] in H
-         | context [Nat.eqb ?a ?b] => destruct (Nat.eqb a b) eqn:?; cbv -[val_eqb Nat.eqb] in H
-         end.
-
-(* on the current tree the representation invariant is kept outside N1 and N3 ... *)
-Lemma define_wf_partial : forall ext ex d,
-  desc_wf d = true -> oiprop_wf ex = true ->
-  in_N1 fx_cur ext ex d = false -> in_N3 fx_cur ext ex d = false ->
-  oiprop_wf (GojaDefine fx_cur ext ex d) = true.
-Proof.
-  intros ext ex d Hwf Hex H1 H3.
-  split_desc d Hwf; split_ex ex Hex;
-    destruct de as [[|]|]; destruct dc as [[|]|]; destruct ext;
-    cbv -[val_eqb Nat.eqb] in H1, H3; eqb_cases_in H1; eqb_cases_in H3;
-    try discriminate H1; try discriminate H3; clear H1 H3;
-    norm; eqb_cases; try reflexivity; congruence.
-Qed.
-
-(* ... and broken inside *)
-Lemma define_wf_guard_exact : forall ext ex d,
-  desc_wf d = true -> oiprop_wf ex = true ->
-  in_N1 fx_cur ext ex d || in_N3 fx_cur ext ex d = true ->
-  oiprop_wf (GojaDefine fx_cur ext ex d) = false.
-Proof.
-  intros ext ex d Hwf Hex H.
-  split_desc d Hwf; split_ex ex Hex;
-    destruct de as [[|]|]; destruct dc as [[|]|]; destruct ext;
-    cbv -[val_eqb Nat.eqb] in H; eqb_cases_in H; try discriminate H; clear H;
-    norm; eqb_cases; try reflexivity; congruence.
-Qed.
-
-(* refutations of "define keeps the representation invariant", by computation on explicit witnesses *)
+(* the inputs of the six repaired defects, as regression points of the table *)
 Definition f1_existing := IProp (mkVP None false false false true (Some 0) None).
 Definition f1_desc := mkDesc None (Some false) None None None None.
 Definition n2_existing := IProp (mkVP (Some (VNum 1)) false false false false None None).
 Definition n2_desc := mkDesc None None (Some None) None None None.
-
-(* N1 as a two-step history on one property: data(writable) -> accessor -> {value} *)
-Definition n1_step1 := GojaDefine fx_cur true (Some (IBare (VNum 1))) (mkDesc None None (Some (Some 0)) None None None).
-Lemma define_hidden_writable_refuted :
-  exists ip, n1_step1 = Some ip /\ iprop_wf ip = false /\
-    option_map absP (GojaDefine fx_cur true (Some ip) (d_value_only (VNum 2))) = Some (PData (VNum 2) true true true) /\
-    ValidateAndApply true (Some (absP ip)) (d_value_only (VNum 2)) = Some (PData (VNum 2) false true true).
-Proof. eexists. vm_compute. repeat split. Qed.
-
-(* N3: accessor -> {writable:true} keeps the getter *)
 Definition n3_existing := IProp (mkVP None false true false true (Some 0) None).
-Lemma define_stale_getter_refuted :
-  exists p, GojaDefine fx_cur true (Some n3_existing) (mkDesc None (Some true) None None None None) = Some (IProp p)
-            /\ vp_accessor p = false /\ vp_getter p = Some 0 /\ vprop_wf p = false.
-Proof. eexists. vm_compute. repeat split. Qed.
 
 (* ------------------------------------------------------------------------------------------ *)
 (* 2. essential invariants of S                                                                 *)
@@ -401,9 +299,9 @@ Lemma sstep_le : forall h o, heap_le h (fst (fst (sstep h o))).
 Proof.
   intros h o; destruct o; cbn [sstep].
   - apply upd_obj_le; intro; apply define_obj_le.
-  - pose proof (s_set_le (S (length h)) h o k v r) as H.
-    destruct (s_set (S (length h)) h o k v r) as [[h' b] ev]. exact H.
-  - destruct (s_get (S (length h)) h o k r). apply heap_le_refl.
+  - pose proof (s_set_le (S (S (length h))) h o k v r) as H.
+    destruct (s_set (S (S (length h))) h o k v r) as [[h' b] ev]. exact H.
+  - destruct (s_get (S (S (length h))) h o k r). apply heap_le_refl.
   - apply heap_le_refl.
   - apply heap_le_refl.
   - apply upd_obj_le; intro; apply delete_obj_le.
